@@ -34,9 +34,23 @@ def main():
     a = ap.parse_args()
     from core import runner, coqrun
     if a.setup:
-        files = [os.path.relpath(f, coqrun.COQ_DIR).replace('.v', '.vo') for f in coqrun.source_files()
-                 if not os.path.basename(f).startswith('Gen_')]
-        coqrun.make(files, timeout=3000)
+        import glob
+        import importlib
+        for mp in sorted(glob.glob(os.path.join(HERE, 'props', 'c[0-9]*.py'))):
+            name = os.path.basename(mp)[:-3]
+            try:
+                mod = importlib.import_module('props.' + name)
+                if hasattr(mod, 'generate'):
+                    mod.generate(runner.Ctx(name.upper(), 'quick', 0))
+            except Exception as e:  # the check itself reports a broken translator
+                print('setup: generator of %s failed: %r' % (name, e))
+        files = [os.path.relpath(f, coqrun.COQ_DIR).replace('.v', '.vo') for f in coqrun.source_files()]
+        try:
+            coqrun.make(files, timeout=3000)
+        except coqrun.CoqError as e:
+            print('setup: make failed at %s:%s: %s' % (e.file, e.line, e))
+            print(e.output[-3000:])
+            return 1
         print('setup: built %d Coq files' % len(files))
         return 0
     if a.replay:
